@@ -1,3 +1,47 @@
+/-
+C02 CAPSTONE — "QUIC v1 STREAM data is exported exactly, datagram by datagram" as ONE theorem about the composed model
+`QuicPipeline.quicMachine` (UDP datagrams in → addressed UDP frames out), by composing what is proved per component.
+
+Spec      `Spec/QuicConnection.lean` (1-RTT datagrams: `Dg1`, `Dg1.wire` = RFC 9000 §17.3.1 packet, RFC 9001 §5.3 packet
+          protection, §5.4 header protection with the sender's mask; `DcidOk`/`CidsOk`: RFC 9000 §5.1; `streamData`),
+          `Spec/QuicSender.lean` (`SPkt`, `PnLenOk`, key generations), `Spec/QuicFrames.lean`.
+Main      `quic_one_rtt_connection_exact`
+            ASSUMES  the session state after the handshake satisfies `Est` (= `C02Session.Rel1` + Initial decryptor present +
+                     the two application header-protection keys in `self.keys` + mask algorithm flag + version stamp +
+                     the CID sets), `KeysWf` (every generation's key fits the AEAD), AEAD `SealLaws`, ANY mask primitive,
+                     nothing exported yet (`hprev`: the handshake left only CRYPTO frames in `output_buffer`);
+            FOR EVERY 1-RTT datagram history `Send1`: both directions interleaved in any way; packet numbers with any
+                     gaps, truncated to any of 1–4 bytes within the RFC 9000 §17.1 window (`PnLenOk`); any number of key
+                     updates by either side (generation +0/+1 per packet of a direction); any well-formed frame mix WITHOUT
+                     CRYPTO frames (see below) around any number of STREAM frames; spin / reserved bits arbitrary;
+                     NEW_CONNECTION_ID issuance and switches (`DcidOk`: a packet is never addressed to a CID only its own
+                     sender issued; the same bytes chosen by both sides are allowed); the sender padded for the
+                     header-protection sample; datagrams pairwise different in (capture time, direction);
+            PROVES   no exception; `quicMachine.out false` = exactly one UDP frame per datagram that carried a STREAM frame,
+                     in capture order, payload = that datagram's STREAM data concatenated, time = the datagram's, addressed
+                     by its direction (`QuicPipeline.addressed`; `C02Pipeline.quic_out_addressed`).
+          Composition: `C02Dissect.dissect_encode_short` (the packet) ∘ `assocData_emit` (AAD = header) ∘
+          `selectDecryptor_tracks` (key epochs) ∘ `decryptRest_emitted` (C16 window, AEAD law, C17 `frames_roundtrip`) ∘
+          `handleFrames_nc` ∘ `C02Out.build_groups` (grouping) — `datagram_step`, `feedAll_exact`.
+RFC keys  `genKeys_eq_rfc` (the model's `key_update` chain from the RFC's generation 0 IS RFC 9001 §6.1's, via C15),
+          `keysWf_rfc` (`KeysWf` for the four suites and lawful hashes), `devQuic_rfc` (C15 `quic_keys_eq_rfc` through the
+          key-log adapter), `first_initial_rfc` (C15 `quic_initial_eq_rfc`: Initial keys from the first DCID),
+          `hello_establishes(_rfc)`: the `set_tls_decryptors` call triggered by the last hello message establishes `Est`
+          with exactly the RFC keys (adapter soundness `C02Pipeline.after_tls_hp_exact` included).
+Partial   `quic_connection_exact_partial`: all hypotheses in RFC terms except `Est` of the post-handshake state.
+NOT proved: `quic_handshake_establishes` (that the Handshake-level packets after the last `set_tls_decryptors` —
+          Certificate … Finished, ACKs — preserve `Est`, and the walk from `new` to that call): `C02Session.
+          handshake_levels_exact` needs `TlsStable`, a for-all-parser-states hypothesis the concrete `QuicTlsSession` does not
+          satisfy (same non-fit as `TlsQuiet`, `C02Pipeline.tls_quiet_rtt1_counterexample`); it has to be re-proved with
+          hypotheses local to the history, as `step_one_rtt_nc` does here for the 1-RTT phase.
+CRYPTO in 1-RTT: excluded (`DgOk.noCrypto`). Without the restriction the statement is FALSE for the code as it is: a 1-RTT
+          CRYPTO frame carrying an EncryptedExtensions- or ServerHello-typed message makes `set_tls_decryptors` run again
+          and resets the Application generations (replayed on the real tool: data after a key update is lost).
+          NewSessionTicket (what RFC 9001 allows there) is harmless (`C02Pipeline.one_rtt_crypto_keeps_keys`) but needs a
+          hypothesis on the parser's reassembly state; not composed here.
+Non-vacuity: namespace `Ex` (toy hashes, toy AEAD, constant mask): four datagrams, two key updates, a packet-number jump on two
+          bytes, a NEW_CONNECTION_ID switch, one datagram without STREAM data — three exported frames.
+-/
 import TLX.Props.C02Session
 import TLX.Props.C02Pipeline
 import TLX.Spec.QuicConnection
@@ -745,4 +789,144 @@ example :
 
 end Ex
 
+/-! ### the handshake side: where the state `Est` comes from -/
+
+section Handshake
+variable (H : Crypto.Prims) (Pc : Cipher.Prims)
+
+/-- the key-log lines of this client random, as `dev_quic_keys` reads them: the last line of each label -/
+structure KeylogHas (kl : List Keylog.Key) (cr ch sh ca sa : Bytes) (early : Option Bytes) : Prop where
+  lines : ∃ sks ss, Keylog.quicSessionKeys kl (Pipeline.natsOfBytes cr) = some sks ∧ quicSecrets sks = some ss ∧
+    lastOf .clientHandshake ss = some ch ∧ lastOf .serverHandshake ss = some sh ∧
+    lastOf .clientTraffic0 ss = some ca ∧ lastOf .serverTraffic0 ss = some sa ∧ lastOf .clientEarly ss = early
+
+/-- `dev_quic_keys` on the key log of the run, QUIC v1: the RFC 9001 §5.1 packet keys of the four (five) secrets -/
+theorem devQuic_rfc (kl : List Keylog.Key) (sel : SuiteSel) (hk : sel.keyLen < 65536) (cr ch sh ca sa : Bytes)
+    (early : Option Bytes) (hkl : KeylogHas kl cr ch sh ca sa early) :
+    ∃ k, devQuic H kl sel .v1 cr = .ok k ∧
+      k.serverApp = tripleSpec (quicPacketKeys (hashOf H sel.hash) sa sel.keyLen) ∧
+      k.clientApp = tripleSpec (quicPacketKeys (hashOf H sel.hash) ca sel.keyLen) ∧
+      k.serverHs = tripleSpec (quicPacketKeys (hashOf H sel.hash) sh sel.keyLen) ∧
+      k.clientHs = tripleSpec (quicPacketKeys (hashOf H sel.hash) ch sel.keyLen) ∧
+      k.serverAppSec = sa ∧ k.clientAppSec = ca ∧
+      k.clientEarly = early.map fun s => tripleSpec (quicPacketKeys (hashOf H sel.hash) s sel.keyLen) := by
+  obtain ⟨sks, ss, h1, h2, h3, h4, h5, h6, h7⟩ := hkl.lines
+  unfold devQuic
+  simp only [h1, h2, qver]
+  rw [C15.quic_keys_eq_rfc _ _ _ hk]
+  simp only [h3, h4, h5, h6, h7]
+  exact ⟨_, rfl, rfl, rfl, rfl, rfl, rfl, rfl, rfl⟩
+
+
+/-- the generation-0 application keys `set_tls_decryptors` installs from a `dev_quic_keys` result -/
+def appKeysOf (k : KeySchedule.QuicKeys) : AppKeys := ⟨dirOf k.serverApp, dirOf k.clientApp, k.serverAppSec, k.clientAppSec⟩
+
+/-- THE step of the handshake that establishes the 1-RTT state: `handle_crypto_frame` finds `new_data` (a ServerHello or
+    EncryptedExtensions was completed), the suite resolves, `dev_quic_keys` finds the connection's lines — afterwards the
+    session satisfies `Est` for exactly those keys, generation 0 in both directions, with the header-protection keys of the
+    same derivation, provided no 1-RTT packet moved the epochs before (none can be decrypted before this point). -/
+theorem hello_establishes (kl : List Keylog.Key) (s : St Tls) (hv : s.tls.ver = s.version) (cr cs : Bytes)
+    (sel : SuiteSel) (k : KeySchedule.QuicKeys)
+    (hn : s.tls.msgs.newData = true) (hcr : s.tls.msgs.clientRandom = some cr) (hcs : s.tls.msgs.ciphersuite = some cs)
+    (hsel : selectSuite cs = some sel) (hk : devQuic H kl sel s.version cr = .ok k)
+    (hinit : s.decInitial.isSome = true)
+    (he : s.epochClient = 0 ∧ s.epochServer = 0 ∧ s.lastPhaseClient = some 0 ∧ s.lastPhaseServer = some 0) :
+    (afterTls (params H Pc kl) s).2 = none ∧
+    Est H Pc kl sel s.version (appKeysOf k) k.clientApp.hp k.serverApp.hp (cs == [0x13, 0x03])
+      (afterTls (params H Pc kl) s).1 0 0 s.pnClient.app s.pnServer.app s.clientCids s.serverCids ∧
+    (afterTls (params H Pc kl) s).1.out = s.out := by
+  have e1 : (params H Pc kl).tlsNewData s.tls = true := hn
+  have e2 : (params H Pc kl).tlsClientRandom s.tls = some cr := hcr
+  have e3 : (params H Pc kl).tlsCiphersuite s.tls = some cs := hcs
+  have e4 : (params H Pc kl).devQuicKeys sel s.version cr = .ok (groupsOf k) := by
+    show (devQuic H kl sel s.version cr).map groupsOf = _
+    rw [hk]; rfl
+  obtain ⟨he1, he2, he3, he4⟩ := he
+  unfold afterTls
+  simp only [e1, if_true, e2, e3, setTlsDecryptors, hsel, e4]
+  cases hke : k.clientEarly <;>
+    (refine ⟨trivial, ⟨⟨⟨?_, ?_, ?_, ?_, ?_, ?_, ?_⟩, ?_, ?_, ?_⟩, ?_, ?_, ?_, ?_, ?_, ?_, ?_⟩, ?_⟩ <;>
+      simp [installGroups, groupsOf, hke, params, tlsClearNewData, hcr, hcs, hsel, hv, hk, AppKeys.toDec, appKeysOf,
+        genDec, genKeys, he1, he2, he3, he4, hinit, HpKeys.withTls])
+
+
+/-- The first datagram of a connection (`QuicSession.__init__`, then `handle_packet` with the DCID of the client's first
+    Initial and version 1): the Initial decryptor and the two Initial header-protection keys are RFC 9001 §5.2's for that
+    DCID, the version is latched, the adapter's stamp set — before the first packet is dissected. -/
+theorem first_initial_rfc (kl : List Keylog.Key) (h32 : H.sha256.outLen = 32) (dcid : Bytes) :
+    let s := feedPre H (params H Pc kl) (St.init (params H Pc [])) dcid .v1
+    s.version = .v1 ∧ s.tls.ver = s.version ∧
+    s.decInitial = some { alg := .aesgcm,
+                          server := some ⟨(quicInitialServerKeys H.sha256 dcid).key, (quicInitialServerKeys H.sha256 dcid).iv⟩,
+                          client := ⟨(quicInitialClientKeys H.sha256 dcid).key, (quicInitialClientKeys H.sha256 dcid).iv⟩ } ∧
+    s.tls.hp.serverInitial = some (quicInitialServerKeys H.sha256 dcid).hp ∧
+    s.tls.hp.clientInitial = some (quicInitialClientKeys H.sha256 dcid).hp ∧
+    s.epochClient = 0 ∧ s.epochServer = 0 ∧ s.lastPhaseClient = some 0 ∧ s.lastPhaseServer = some 0 ∧
+    s.clientCids = [] ∧ s.serverCids = [] ∧ s.out = [] := by
+  have hd : devInitial H .v1 dcid = some
+      { clientKey := (quicInitialClientKeys H.sha256 dcid).key, clientIv := (quicInitialClientKeys H.sha256 dcid).iv,
+        clientHp := (quicInitialClientKeys H.sha256 dcid).hp, serverKey := (quicInitialServerKeys H.sha256 dcid).key,
+        serverIv := (quicInitialServerKeys H.sha256 dcid).iv, serverHp := (quicInitialServerKeys H.sha256 dcid).hp } := by
+    unfold devInitial
+    simp only [qver]
+    rw [C15.quic_initial_eq_rfc _ h32]
+  have hp : (params H Pc kl).devInitialKeys .v1 dcid = (devInitial H .v1 dcid).map
+      fun k => (⟨k.serverKey, k.serverIv⟩, ⟨k.clientKey, k.clientIv⟩) := rfl
+  intro s
+  simp [s, feedPre, handlePacketPre, latchVersion, St.init, setInitialDecryptor, hp, hd, stampVer, HpKeys.withInitial, params]
+
+/-- … in RFC terms: with the connection's four key-log lines present (QUIC v1), the established keys are RFC 9001's —
+    generation 0 of the §6 chain from CLIENT_/SERVER_TRAFFIC_SECRET_0, header protection keys "quic hp" of the same secrets —
+    and they satisfy `KeysWf` (`keysWf_rfc`): exactly what `quic_one_rtt_connection_exact` assumes. -/
+theorem hello_establishes_rfc (kl : List Keylog.Key) (s : St Tls) (hv : s.tls.ver = s.version) (hv1 : s.version = .v1)
+    (cr cs ch sh ca sa : Bytes) (early : Option Bytes) (sel : SuiteSel)
+    (hn : s.tls.msgs.newData = true) (hcr : s.tls.msgs.clientRandom = some cr) (hcs : s.tls.msgs.ciphersuite = some cs)
+    (hsel : selectSuite cs = some sel) (hk : sel.keyLen < 65536) (hkl : KeylogHas kl cr ch sh ca sa early)
+    (hinit : s.decInitial.isSome = true)
+    (he : s.epochClient = 0 ∧ s.epochServer = 0 ∧ s.lastPhaseClient = some 0 ∧ s.lastPhaseServer = some 0) :
+    (afterTls (params H Pc kl) s).2 = none ∧
+    Est H Pc kl sel .v1 (rfcGen (hashOf H sel.hash) sel.keyLen sa ca 0)
+      (quicHp (hashOf H sel.hash) ca sel.keyLen) (quicHp (hashOf H sel.hash) sa sel.keyLen) (cs == [0x13, 0x03])
+      (afterTls (params H Pc kl) s).1 0 0 s.pnClient.app s.pnServer.app s.clientCids s.serverCids ∧
+    (afterTls (params H Pc kl) s).1.out = s.out := by
+  obtain ⟨k, hdq, k1, k2, _, _, k5, k6, _⟩ := devQuic_rfc H kl sel hk cr ch sh ca sa early hkl
+  rw [← hv1] at hdq
+  obtain ⟨r1, r2, r3⟩ := hello_establishes H Pc kl s hv cr cs sel k hn hcr hcs hsel hdq hinit he
+  refine ⟨r1, ?_, r3⟩
+  have hk0 : appKeysOf k = rfcGen (hashOf H sel.hash) sel.keyLen sa ca 0 := by
+    simp [appKeysOf, rfcGen, k1, k2, k5, k6, dirOf, tripleSpec, quicPacketKeys, quicGeneration]
+  have hc : k.clientApp.hp = quicHp (hashOf H sel.hash) ca sel.keyLen := by rw [k2]; rfl
+  have hs : k.serverApp.hp = quicHp (hashOf H sel.hash) sa sel.keyLen := by rw [k1]; rfl
+  rw [hk0, hc, hs, hv1] at r2
+  exact r2
+
+/-- C02 for a whole connection, PARTIAL: everything in RFC terms — the four QUIC v1 suites, lawful hash functions, the
+    RFC 9001 §5.1/§6 keys of the connection's traffic secrets, any AEAD satisfying `SealLaws`, any header-protection
+    primitive — except that the state `c` the handshake datagrams left is ASSUMED to satisfy `Est` for those keys
+    (`hello_establishes_rfc` proves it for the state right after the last `set_tls_decryptors`; that the remaining
+    Handshake-level packets — Certificate … Finished, ACKs — preserve it is not proved here). Then for EVERY conformant
+    1-RTT datagram history the export without `-a` is exactly one UDP frame per datagram with a STREAM frame, in capture
+    order, carrying that datagram's STREAM data, capture time and direction. -/
+theorem quic_connection_exact_partial (maskFn : Dissect.MaskFn) (info : Nat → Pipeline.Info) (hl : H.Lawful)
+    (kl : List Keylog.Key) (L : SealLaws Pc) (cs : Bytes) (sel : SuiteSel) (hsel : selectSuite cs = some sel)
+    (ho : (hashOf H sel.hash).outLen < 65536) (sa ca : Bytes)
+    (hs : sa.length = (hashOf H sel.hash).outLen) (hc : ca.length = (hashOf H sel.hash).outLen)
+    (items : List (MainLoop.Pkt × Dg1)) (c : QConn) (lc ls : Nat) (cc sc : List Bytes) (hr : c.raised = none)
+    (hest : Est H Pc kl sel .v1 (rfcGen (hashOf H sel.hash) sel.keyLen sa ca 0)
+      (quicHp (hashOf H sel.hash) ca sel.keyLen) (quicHp (hashOf H sel.hash) sa sel.keyLen) (cs == [0x13, 0x03])
+      c.st 0 0 lc ls cc sc)
+    (hprev : ∀ o ∈ c.st.out, UdpOut.exported false (frameOf o) = none)
+    (hcar : ∀ x ∈ items, Carries info c
+      (wireOf H Pc L sel .v1 (rfcGen (hashOf H sel.hash) sel.keyLen sa ca 0)) x.1 x.2)
+    (hsend : Send1 maskFn H Pc L sel .v1 (rfcGen (hashOf H sel.hash) sel.keyLen sa ca 0)
+      (quicHp (hashOf H sel.hash) ca sel.keyLen) (quicHp (hashOf H sel.hash) sa sel.keyLen) (cs == [0x13, 0x03])
+      0 0 lc ls cc sc (items.map (·.2)))
+    (htimes : ((items.map (·.2)).map fun d => (d.x.ts, d.x.srv)).Pairwise (· ≠ ·)) :
+    let QM := quicMachine maskFn H Pc info
+    (feedAll QM kl c items).raised = none ∧
+    QM.out false (feedAll QM kl c items) = expectedOut c (items.map (·.2)) :=
+  quic_one_rtt_connection_exact maskFn H Pc info kl L sel .v1 _ _ _ _
+    (keysWf_rfc H hl Pc kl cs sel hsel .v1 ho sa ca hs hc) items c 0 0 lc ls cc sc hr hest hprev hcar hsend htimes
+
+end Handshake
 end TLX.Props.C02Capstone
